@@ -341,6 +341,17 @@ def run(ctx):
                             '(fixed, delimiter-terminated prefix) no longer holds for what is actually listed / deleted / written' % (pname, norm(n0)[:80])))
     # ---- C15.h closing a writable transient cassette always cleans up: the two switches are the only conditions
     from .. import paths as _paths
+    # ---- C15.i what the cassette asks of the bucket happens: a call whose callee is a generator function does nothing until it is consumed
+    from . import common as _cm15
+    ci15 = res.clause('C15.i', 'R-MUSTPASS', 'bucket operations requested by the S3 cassette are executed, not left as unconsumed generators', floor=1)
+    lazy = [x for x in _cm15.discarded_lazy_calls(ctx) if x[0].cls is not None and x[0].cls.name in ('S3TapeCassette', 'S3BasicFacade')]
+    ci15.instance('no statement of the S3 cassette / facade calls a generator function and drops the result', 'S3TapeCassette', not lazy)
+    ci15.evaluations += 1
+    for f_, n_, callee in lazy[:2]:
+        res.add(Finding('C15', 'C15.i', 'R-MUSTPASS', f_.file, f_.qualname, n_.lineno, norm(n_)[:100],
+                        '`%s` calls the generator function %s and drops the result: none of its body runs, so the deletion / write it stands for '
+                        'never happens (e.g. the metadata objects of a transient cassette survive close())' % (norm(n_)[:70], callee)))
+    _cm15.complete_listing_clause(ctx, res, 'C15', 'C15.j', floor=2)
     ch = res.clause('C15.h', 'R-DECISION', 'close(): the clean-up depends on read_only / transient only, and removes both key families', floor=1)
     close_m = cas.lookup('close')
     if close_m is None:
